@@ -60,6 +60,11 @@ Section Dict.
     rewrite G. simpl. rewrite app_nil_r. apply Permutation_sym, Permutation_rev.
   Qed.
 
+  Lemma create_groups_partition_lemma es :
+    Permutation (concat (map snd (create_groups Sc es))) es /\
+    Forall (fun g => Forall (fun e => e_dim e = fst g) (snd g)) (create_groups Sc es).
+  Proof. split; [apply create_groups_perm|apply create_groups_ok]. Qed.
+
   (* ---------------- all groups ---------------- *)
   Definition of_dim (d : Z) (alloc : list (entry * Z)) : list (entry * Z) :=
     filter (fun er => e_dim (fst er) =? d) alloc.
